@@ -193,6 +193,8 @@ def main():
     for fn, q, node, kind, pids, text, new_src, orig, key in cands:
         if picked >= n_want:
             break
+        if os.environ.get("AUTOMUT_ONLY_DONE") and key not in done:
+            continue  # revisit recorded mutants only (the sampling order changes when anchors change)
         picked += 1
         if key in done and not (os.environ.get("AUTOMUT_RETRY") and done[key].get("verdict") in os.environ["AUTOMUT_RETRY"].split(",")):
             continue
